@@ -430,7 +430,15 @@ fn parse_filtered_tokens(
     mode: Mode,
     source_path: &str,
 ) -> Result<ast::Mod, ParseError> {
-    let marker_token = (Tok::start_marker(mode), Default::default());
+    // The start marker is not part of the source. Place it (with an empty range) at the start of the
+    // first real token, so that positions derived from it (the range of the `Mod` node with
+    // `all-nodes-with-ranges`) follow the start offset of the source instead of being pinned to 0.
+    let mut lxr = lxr.into_iter().peekable();
+    let marker_start = match lxr.peek() {
+        Some(Ok((_, range))) => range.start(),
+        _ => TextSize::default(),
+    };
+    let marker_token = (Tok::start_marker(mode), TextRange::empty(marker_start));
     let lexer = iter::once(Ok(marker_token)).chain(lxr);
     python::TopParser::new()
         .parse(
